@@ -25,8 +25,17 @@ CPU_BUDGET = 300
 BROKEN_CPU = 20  # parsing a corpus file costs < 0.5 s CPU; a parser loop that does not advance is a hang
 
 
+def _norm(key):
+    """Mechanism = (accepted | broken input, exception type or hang, innermost vsg frame); how the run was
+    driven (fix / check / isolation / apply_rules / CLI) is not part of it."""
+    for a, b in (("fix:", "accepted:"), ("check:", "accepted:"), ("isolation:", "accepted:"), ("parse:", "accepted:"), ("broken:parse:", "broken:"), ("broken:rules:", "broken:"), ("broken-cli:", "broken:")):
+        if key.startswith(a):
+            return b + key[len(a):]
+    return key
+
+
 def _key(prefix, tb):
-    return "%s:%s" % (prefix, fixrun.vsg_frame(tb))
+    return _norm("%s:%s" % (prefix, fixrun.vsg_frame(tb)))
 
 
 def run_case(case):
@@ -82,7 +91,7 @@ def run_case(case):
                     o2 = [x for x in r2.rules if x.unique_id == o.unique_id][0]
                     o2.fix(f2)
             except harness.CpuTimeout:
-                V.append(("isolation:hang:%s" % o.unique_id, {"rule": o.unique_id}))
+                V.append(("accepted:hang:%s" % o.unique_id, {"rule": o.unique_id}))
                 break
             except Exception as e:
                 tb = traceback.format_exc()
@@ -227,7 +236,7 @@ def main(tier):
     for c, r in zip(cases, results):
         st = r.get("status", "ok")
         if st == "hang":
-            V.violation("%s:hang:%s" % (c["kind"], fixrun.loop_frame(r.get("trace", ""))), c, r)
+            V.violation(_norm("%s:hang:%s" % ("broken" if c["kind"].startswith("broken") else "accepted", fixrun.loop_frame(r.get("trace", "")))), c, r)
             continue
         if st != "ok":
             V.note_inconclusive("%s %s" % (st, (str(r.get("detail")) + str(r.get("trace", ""))[-300:])[:400]))
@@ -251,7 +260,7 @@ def main(tier):
             stats["broken_cli"] += 1
         nontriv.add(json.dumps(c, sort_keys=True))
         for key, det in r["violations"]:
-            V.violation(key, c, det)
+            V.violation(_norm(key), c, det)
     if stats["fix_runs"] < 1000 or stats["broken_rejected"] < 300:
         V.note_inconclusive("too little observed: %s" % stats)
     rc = V.finish()
